@@ -214,8 +214,10 @@ type PathCtx struct {
 	Writes  []*engine.Value
 	Globals []*ssa.Global
 	Pre     engine.Value // deep snapshot of *target before the call (update methods)
-	SrcSnap engine.Value
-	ArgsPre []engine.Value // deep clone of the arguments before the call (aliasing preserved)
+	// TgtRefsPre: slots behind the references the update target held before the call
+	TgtRefsPre map[*engine.Value]string
+	SrcSnap    engine.Value
+	ArgsPre    []engine.Value // deep clone of the arguments before the call (aliasing preserved)
 }
 
 func (pc *PathCtx) Report(kind, path, note string, model map[string]uint64, inconclusive bool) {
@@ -410,6 +412,10 @@ func (d *Driver) exploreOne(cv *Conv, check CheckFn, opt ExploreOpt) *ConvReport
 				panic(&engine.Abort{Kind: "infeasible", Reason: "nil update target"})
 			}
 			pc.Pre = DeepSnapshot(*tp.Slot)
+			// what the target refers to before the call (pointees, backing arrays, map objects): not part of the
+			// struct ARG points to
+			pc.TgtRefsPre = map[*engine.Value]string{}
+			reachRefs(*tp.Slot, pc.TgtRefsPre, "target")
 		}
 		if opt.TrackWrites {
 			pc.SrcSnap = DeepSnapshot(pc.Src)
